@@ -1,0 +1,109 @@
+/**
+ * @file verif_hooks.h
+ *
+ * Instrumentation points for external runtime verification.
+ *
+ * Everything in this file is inactive unless the translation unit is compiled
+ * with -DCOCLS_VERIF. With the guard off every macro expands to nothing.
+ *
+ * With the guard on, the library calls cocls::verif::hook() at named sites.
+ * A harness may install a handler (plain function pointer, default null = no-op).
+ * The handler must not synchronise threads (no locks, no RMW atomics), otherwise
+ * it would hide the very races the harness wants to observe.
+ */
+#pragma once
+#ifndef SRC_COCLS_VERIF_HOOKS_H_
+#define SRC_COCLS_VERIF_HOOKS_H_
+
+#ifdef COCLS_VERIF
+
+#include <chrono>
+#include <condition_variable>
+#include <mutex>
+
+#if defined(__SANITIZE_THREAD__)
+#define COCLS_VERIF_TSAN 1
+#elif defined(__has_feature)
+#if __has_feature(thread_sanitizer)
+#define COCLS_VERIF_TSAN 1
+#endif
+#endif
+
+#ifdef COCLS_VERIF_TSAN
+extern "C" void __tsan_acquire(void *addr);
+extern "C" void __tsan_release(void *addr);
+#endif
+
+#define COCLS_VERIF_SITES(X) \
+    X(aw_sub_pre) X(aw_sub_post) \
+    X(aw_subchk_pre) X(aw_subchk_retry) X(aw_subchk_post) X(aw_subchk_ready) \
+    X(aw_chain_pre) X(aw_chain_post) X(aw_chain_node) X(aw_chain_node_done) \
+    X(coaw_suspend) X(sync_wake_mid) X(sync_pre_sub) X(sync_pre_wait) \
+    X(prom_claim_pre) X(prom_claim_post) X(fut_set_post) X(prom_dtor) \
+    X(fin_pre_resolve) X(fin_pre_destroy) X(fin_post_destroy) X(async_await_suspend) \
+    X(mx_ready_pre) X(mx_sub_post) X(mx_unlock_pre) X(mx_unlock_slow) \
+    X(mx_build_pre) X(mx_build_post) X(mx_build_node) X(mx_unlock_grant) \
+    X(q_push_unlocked) X(q_pop_entry) X(q_unblock_unlocked) \
+    X(lq_push_unlocked) X(lq_pop_unlocked) X(lq_unblock_unlocked) \
+    X(tp_worker_dequeued) X(tp_worker_after_job) X(tp_stop_flagged) X(tp_stop_pre_join) \
+    X(tp_enqueue_entry) X(tp_await_enqueued) X(tp_current_ready) \
+    X(sch_schedule_entry) X(sch_cancel_removed) X(sch_worker_pre_wait) X(sch_worker_loop) \
+    X(sch_stop_cb) X(sch_dtor_stop) \
+    X(pub_push_unlocked) X(pub_kick_unlocked) X(pub_position) \
+    X(sig_emit_pre) X(sig_state_dtor) X(sig_suspend_locked) X(sig_resume) \
+    X(sf_charge_pre_sub) X(sf_tracer_fire) \
+    X(gen_yield_suspend) X(gen_sync_pre_wait) X(gen_unblock_sync) \
+    X(rs_alloc_entry) X(rs_alloc_flagged) X(rs_dealloc_entry) X(rs_dealloc_pre_store) \
+    X(ev_subchk_ready) X(ev_subchk_pushed) X(ev_chain_node) \
+    X(ev_mx_lock_fast) X(ev_mx_lock_sub_free) X(ev_mx_lock_wait) \
+    X(ev_mx_unlock_fast) X(ev_mx_unlock_handover) X(ev_mx_rebuild_node) \
+    X(ev_tp_enqueue_ok) X(ev_tp_enqueue_rejected)
+
+namespace cocls {
+namespace verif {
+
+#define COCLS_VERIF_X(name) name,
+enum site : int { COCLS_VERIF_SITES(COCLS_VERIF_X) site_count };
+#undef COCLS_VERIF_X
+
+#define COCLS_VERIF_X(name) #name,
+inline const char *const site_names[] = { COCLS_VERIF_SITES(COCLS_VERIF_X) nullptr };
+#undef COCLS_VERIF_X
+
+///handler prototype: site, optional object pointer, optional value, whether a stall is allowed here
+using hook_fn = void (*)(int site, const void *ptr, long val, bool stallable) noexcept;
+inline hook_fn hook_handler = nullptr;
+
+inline void hook(int s, const void *p, long v, bool stallable) noexcept {
+    if (auto h = hook_handler) h(s, p, v, stallable);
+}
+
+///virtual clock support for the scheduler (null = real clock)
+using now_fn = std::chrono::system_clock::time_point (*)();
+inline now_fn now_handler = nullptr;
+using wait_until_fn = void (*)(std::condition_variable &, std::unique_lock<std::mutex> &,
+                               std::chrono::system_clock::time_point);
+inline wait_until_fn wait_until_handler = nullptr;
+
+}
+}
+
+#define COCLS_VERIF_POINT(s) ::cocls::verif::hook(::cocls::verif::s, nullptr, 0, true)
+#define COCLS_VERIF_EVENT(s, p, v) ::cocls::verif::hook(::cocls::verif::s, (p), (v), false)
+#define COCLS_VERIF_NOW_OVERRIDE(var) do { if (auto cocls_verif_h = ::cocls::verif::now_handler) var = cocls_verif_h(); } while (false)
+#ifdef COCLS_VERIF_TSAN
+#define COCLS_VERIF_FENCE_ACQUIRE(addr) __tsan_acquire((void *)(addr))
+#else
+#define COCLS_VERIF_FENCE_ACQUIRE(addr) ((void)0)
+#endif
+
+#else
+
+#define COCLS_VERIF_POINT(s) ((void)0)
+#define COCLS_VERIF_EVENT(s, p, v) ((void)0)
+#define COCLS_VERIF_NOW_OVERRIDE(var) ((void)0)
+#define COCLS_VERIF_FENCE_ACQUIRE(addr) ((void)0)
+
+#endif
+
+#endif /* SRC_COCLS_VERIF_HOOKS_H_ */
